@@ -15,7 +15,8 @@ T4 = ["<!DOCTYPE html>", '<!DOCTYPE q PUBLIC "-//W3C//DTD HTML 4.01 Frameset//">
       "<frame>", "<noframes>", "</noframes>", "<!--c-->", " ", "x", "<br>", "</br>", "<link>", "<style>", "</style>", "<p>"]
 T5 = ["<svg>", "</svg>", "<math>", "</math>", "<mi>", "<mglyph>", "<annotation-xml encoding=text/html>", "<annotation-xml>",
       "<foreignObject>", "<desc>", "<title>", "<p>", "</p>", "<b>", "<font color=r>", "<font>", "<svg/>", "<![CDATA[x]]>", "x",
-      "<table>", "<tr>", "</title>", "</foreignObject>", "<g xlink:href=a definitionurl=b>", "</mi>", "<br>", "</br>"]
+      "<table>", "<tr>", "</title>", "</foreignObject>", "<g xlink:href=a definitionurl=b>", "</mi>", "<br>", "</br>", "<select>", "</table>",
+      "<head>", "<html>", "<colgroup>"]
 T6 = ["<li>", "</li>", "<ul>", "</ul>", "<dd>", "<dt>", "<p>", "</p>", "<h1>", "<h2>", "</h1>", "<pre>", "\n", "<textarea>",
       "</textarea>", "<form>", "</form>", "<rt>", "<rp>", "<ruby>", "<option>", "<button>", "</button>", "<address>", "<hr>",
       "<listing>", "x", "<div>", "</div>", "<b>"]
@@ -43,6 +44,22 @@ THEMES["T8F"] = [l for l in T8 if l not in ("<svg>", "<math>")]
 CTX = ["div", "body", "head", "html", "title", "textarea", "style", "script", "xmp", "iframe", "noembed", "noframes",
        "noscript", "plaintext", "table", "tbody", "tfoot", "thead", "tr", "td", "th", "caption", "colgroup", "select",
        "frameset", "p", "a", "unknownx"]
+
+
+# seed words (deep states reached by a fixed prefix; explored further from there, document mode)
+SEEDS = {
+    "T1": [("<b>", "<b>", "<b>"), ("<b>", "<p>", "<b>", "<b>"), ("<a>", "<b>", "<i>", "<div>"), ("<table>", "<b>", "<i>"), ("<b>", "<i>", "<a>", "<p>", "<div>")],
+    "T2": [("<table>", "<tr>", "<td>"), ("<table>", "<caption>", "<b>"), ("<table>", "<colgroup>")],
+    "T3": [("<select>", "<optgroup>", "<option>"), ("<table>", "<tr>", "<td>", "<select>")],
+    "T5": [("<svg>", "<foreignObject>", "<math>", "<mi>"), ("<math>", "<annotation-xml encoding=text/html>", "<svg>")],
+    "T6": [("<ul>", "<li>", "<p>"), ("<ruby>", "<rt>"), ("<form>", "<p>", "<button>")],
+    "T8": [("<ruby>", "<rb>", "<rtc>", "<rt>")],
+}
+
+
+def seed_words(theme):
+    L = THEMES[theme]
+    return [tuple(L.index(l) for l in w) for w in SEEDS.get(theme, [])]
 
 
 def text_of(theme, word, seed=""):
